@@ -41,6 +41,18 @@ Theorem C35_update_key_choice : forall cols sets key,
 Proof. exact update_key_choice. Qed.
 Print Assumptions C35_update_key_choice.
 
+(* the sub-list window test of ListUpdateClause._analyze (two endpoint shortcuts + full comparison) accepts exactly the windows equal to
+   the stored list: a window that only agrees at its first and last element is never taken for the stored list *)
+Theorem C35_list_window : forall pl sub, pl <> [] -> window_match pl sub = zlist_eqb pl sub.
+Proof. exact window_match_iff. Qed.
+Print Assumptions C35_list_window.
+
+(* BatchQuery: over ANY sequence of add_query / execute (explicit, repeated, or via the context manager), the batches sent plus what is
+   still queued are exactly the statements added, in order, each once -- a batch object executed twice re-sends nothing *)
+Theorem C35_batch_once : forall ops, concat (snd (bq_run ops)) ++ fst (bq_run ops) = bq_added ops.
+Proof. exact bq_once. Qed.
+Print Assumptions C35_batch_once.
+
 (* ---- open findings, as witnesses on the faithful model (replayed on the implementation by corpus/C35) ---- *)
 Definition kcol (f : name) (part : bool) (v : Z) : colst :=
   {| c_name := f; c_kind := KScalar; c_part := part; c_clust := negb part; c_static := false; c_val := VInt v; c_prev := VInt v; c_expl := false |}.
